@@ -75,13 +75,25 @@ impl Prop for C06 {
                 push(st);
             }
         }
+        // the alternative forms of the empty string (length bytes 01 and 80), in the name (other fields follow it) and in a player name
+        for (i, enc) in [Enc::Latin1, Enc::Ucs2 { stray01: false }].into_iter().enumerate() {
+            for alt_empty in [false, true] {
+                let mut st = base_state(500 + i as u64);
+                st.name = UStr { pieces: vec![], enc, alt_empty };
+                st.map = UStr { pieces: vec![], enc, alt_empty };
+                if let Some(p) = st.players.first_mut() {
+                    p.name = UStr { pieces: vec![], enc, alt_empty };
+                }
+                push(st);
+            }
+        }
         // UCS-2 strings whose first bytes look like a byte-order mark
         for (i, first) in ['\u{FEFF}', '\u{FFFE}', '\u{BBEF}'].into_iter().enumerate() {
             for stray01 in [false, true] {
                 let mut st = base_state(1000 + i as u64);
                 let mut pieces = vec![Piece::Ch(first), Piece::Ch('\u{41BF}')];
                 pieces.extend("name".chars().map(Piece::Ch));
-                st.name = UStr { pieces, enc: Enc::Ucs2 { stray01 } };
+                st.name = UStr { pieces, enc: Enc::Ucs2 { stray01 }, alt_empty: false };
                 push(st);
             }
         }
@@ -91,7 +103,7 @@ impl Prop for C06 {
                 let mut st = base_state(2000 + i as u64);
                 let mut pieces: Vec<Piece> = "Server".chars().map(Piece::Ch).collect();
                 pieces.insert(pos, Piece::Color(255, 1, 128));
-                st.name = UStr { pieces, enc };
+                st.name = UStr { pieces, enc, alt_empty: false };
                 push(st);
             }
         }
@@ -99,7 +111,7 @@ impl Prop for C06 {
     }
 
     fn exhaustive_subspaces(&self, _tier: Tier) -> Vec<String> {
-        vec!["every length-byte value: Latin-1 strings of 0..=126 characters, UCS-2 strings of 0..=126 units with and without the stray 01 byte".into()]
+        vec!["every length-byte value: Latin-1 strings of 0..=126 characters, UCS-2 strings of 0..=126 units with and without the stray 01 byte, and both wire forms of the empty string in each encoding (00 / 01 00, 80 / 81 00 00)".into()]
     }
 
     fn run(&self, st: &U2State) -> Outcome {
